@@ -414,13 +414,13 @@ def configs_for(n, anc, tier, rnd):
     for arity in (1, 2, 3):
         vps = list(itertools.product(range(n), repeat=arity))
         if arity == 3:
-            vps = [vp for vp in vps if all(len(cov[b]) >= 2 for b in vp)][:2 if tier != 'thorough' else 12]
+            vps = [vp for vp in vps if all(len(cov[b]) >= 2 for b in vp)][:2 if tier != 'thorough' else 6]
         for vp in vps:
             tuples = list(itertools.product(*[cov[b] for b in vp]))
             sets = [()]
             for k in (1, 2, 3, 4):
                 sets += list(itertools.combinations(tuples, k))
-            cap = {1: 16, 2: 10, 3: 5}[arity] * (6 if tier == 'thorough' else 1)
+            cap = {1: 16, 2: 10, 3: 5}[arity] * (3 if tier == 'thorough' else 1)
             if len(sets) > cap:
                 # keep the small ones, sample the rest
                 small = [s for s in sets if len(s) <= 1]
@@ -577,6 +577,7 @@ def jobs(tier):
                                  'a single method per registry (methods do not interact in build_dispatch_tables except through the accumulated report)'],
                     extracted=list(exs.values()), props=['C01', 'C02', 'C03', 'C06', 'C17', 'C04'], timeout=900, replay=replay)
             j.graph = (n, direct)
+            j.no_cross = True      # concrete run: the formula is decided by simplification, a second SAT back end adds nothing
             j.cfgs = batch
             out.append(j)
     return out
